@@ -71,12 +71,22 @@ func unfolded(root *ref.RCell, limit int) int {
 
 const maxUnfold = 100000
 
-// decodeTLB is the oracle of the TL-B half for one (type, cell tree).
-func decodeTLB(c *core.Ctx, t reflect.Type, root *ref.RCell, withHasher bool) error {
+// decodeTLB is the oracle of the TL-B half for one (type, cell tree, decoder configuration).
+func decodeTLB(c *core.Ctx, t reflect.Type, root *ref.RCell, d int) error {
 	u := unfolded(root, maxUnfold)
 	if u > maxUnfold {
 		c.Class("skipped: unfolding above the bound")
 		return nil
+	}
+	var lib *libTree
+	if decoderResolves(d) {
+		lib = drawLibTree(c)
+		// one case in four: the input itself is the library, the decoder gets a library cell that names it
+		if c.Choose("lib.is-input", 4) == 0 && u <= 20000 && !hasSpecial(root) {
+			lib.tree = root
+			root = ref.NewRCell(ref.Bits{}.AppendUint(2, 8).AppendBytes(root.ReprHash()), true)
+			c.Class("input behind a library cell")
+		}
 	}
 	data := ref.SerializeBOC([]*ref.RCell{root}, ref.BocVariant{})
 	cells, err := boc.DeserializeBoc(data)
@@ -91,22 +101,33 @@ func decodeTLB(c *core.Ctx, t reflect.Type, root *ref.RCell, withHasher bool) er
 	out := reflect.New(t)
 	var derr error
 	var perr error
+	resolved := 0
+	dec := newDecoder(d, lib, &resolved)
 	alloc := core.AllocDelta(func() {
 		perr = core.Protect(func() error {
-			if withHasher {
-				derr = tlb.NewDecoder().Unmarshal(cells[0], out.Interface())
-			} else {
-				derr = tlb.Unmarshal(cells[0], out.Interface())
-			}
+			derr = runDecoder(dec, cells[0], out.Interface())
 			return nil
 		})
 	})
 	if perr != nil {
-		return fmt.Errorf("decoding into %s panicked: %v\ninput BOC %x", name, perr, trunc(data))
+		return fmt.Errorf("decoding into %s with %s panicked: %v\ninput BOC %x", name, describeDecoder(d), perr, trunc(data))
 	}
-	bound := uint64(16<<20) + uint64(64<<10)*uint64(u)
+	// a resolved library stands for the cells the resolver handed out: they are part of what the input unfolds to
+	ue := uint64(u) + uint64(resolved)*uint64(lib.cells())
+	bound := uint64(16<<20) + uint64(64<<10)*ue
 	if alloc > bound {
-		return fmt.Errorf("decoding into %s allocated %d bytes for a tree that unfolds to %d cells (bound %d)\ninput BOC %x", name, alloc, u, bound, trunc(data))
+		return fmt.Errorf("decoding into %s with %s allocated %d bytes for a tree that unfolds to %d cells (bound %d)\ninput BOC %x", name, describeDecoder(d), alloc, ue, bound, trunc(data))
+	}
+	if resolved > 0 {
+		c.Class("library resolver called")
+	}
+	if dec != nil && decoderHasDebug(d) {
+		// the same decoder again (a decoder is made once and used for many cells): whatever the first call
+		// left in it, the second call returns a value or an error too
+		resetAll(cells[0])
+		if perr := core.Protect(func() error { dec.Unmarshal(cells[0], reflect.New(t).Interface()); return nil }); perr != nil {
+			return fmt.Errorf("decoding into %s with %s panicked when the decoder was used a second time (first result: %v): %v\ninput BOC %x", name, describeDecoder(d), derr, perr, trunc(data))
+		}
 	}
 	if derr != nil {
 		c.Class("decode error")
@@ -115,7 +136,7 @@ func decodeTLB(c *core.Ctx, t reflect.Type, root *ref.RCell, withHasher bool) er
 	c.Class("decoded")
 	// exercise the encoder on decoder output: errors are fine, panics are not (small inputs only: the
 	// property is about decoders, and some encoders are slow on very long lists)
-	if u > 2000 {
+	if ue > 2000 {
 		return nil
 	}
 	if perr := core.Protect(func() error { tlb.Marshal(boc.NewCell(), out.Elem().Interface()); return nil }); perr != nil {
@@ -255,7 +276,7 @@ var mutated = &core.Check{Name: "c08/tlb-mutated", Quick: 20000, Thorough: 15000
 	if nm > 0 {
 		c.NonTrivial(typeName(t), root.ReprHash())
 	}
-	return decodeTLB(c, t, root, c.Bool("hasher"))
+	return decodeTLB(c, t, root, drawDecoder(c))
 }}
 
 var random = &core.Check{Name: "c08/tlb-random", Quick: 15000, Thorough: 1000000, Hang: hang, Fn: func(c *core.Ctx) error {
@@ -287,7 +308,7 @@ var random = &core.Check{Name: "c08/tlb-random", Quick: 15000, Thorough: 1000000
 		root = ref.NewRCell(ref.Bits(c.Bits("root", c.Range("rootbits", 0, 200))), false, mid, mid, mid, mid)
 	}
 	c.NonTrivial(typeName(t), root.ReprHash())
-	return decodeTLB(c, t, root, c.Bool("hasher"))
+	return decodeTLB(c, t, root, drawDecoder(c))
 }}
 
 // ---------------------------------------------------------------------------------------------
@@ -585,7 +606,7 @@ var lists = &core.Check{Name: "c08/lists", Quick: 32, Thorough: 2000, Hang: hang
 		t = []reflect.Type{reflect.TypeOf(tlb.Bytes{}), reflect.TypeOf(tlb.SnakeData{}), reflect.TypeOf(tlb.Text(""))}[c.Choose("snake.as", 3)]
 		c.Class(fmt.Sprintf("snake of %d bytes as %s", n, t.Name()))
 		c.NonTrivial(n, t.Name())
-		return decodeTLB(c, t, root, c.Bool("hasher"))
+		return decodeTLB(c, t, root, drawDecoder(c))
 	}
 	cell := boc.NewCell()
 	if err := tlb.Marshal(cell, v); err != nil {
@@ -597,7 +618,7 @@ var lists = &core.Check{Name: "c08/lists", Quick: 32, Thorough: 2000, Hang: hang
 		return nil
 	}
 	c.NonTrivial(root.ReprHash())
-	return decodeTLB(c, t, root, c.Bool("hasher"))
+	return decodeTLB(c, t, root, drawDecoder(c))
 }}
 
 func TestProp(t *testing.T) {
@@ -611,7 +632,7 @@ func TestProp(t *testing.T) {
 }
 
 func TestReplay(t *testing.T) {
-	core.Replay(t, mutated, random, tlCheck, helpers, lists, tlRaw, tlbRaw, answers, answersGrid, liteapiCheck, sweep)
+	core.Replay(t, mutated, random, tlCheck, helpers, lists, tlRaw, tlbRaw, answers, answersGrid, liteapiCheck, sweep, wide, sliceCheck)
 }
 
 var _ = errors.New
